@@ -247,10 +247,10 @@ fn run_fan(v: &[u64]) {
 // ------------------------------------------------------------------------------------------------ columns: ragged rows (C12, C01, C02, C13, C20)
 // args: w0 w1 w2 (row widths 0..3), form (0..5), offs (0: IndexOptimized, 1: Vec<usize>), probe (position for the out-of-bounds probe)
 fn pre_cols(v: &[u64]) -> bool {
-    v[0] <= 3 && v[1] <= 3 && v[2] <= 3 && v[3] < 7 && v[4] < 2
+    v[0] <= 3 && v[1] <= 3 && v[2] <= 3 && v[3] < 8 && v[4] < 2
 }
 fn doms_cols() -> Vec<Vec<u64>> {
-    vec![range(4), range(4), range(4), range(7), range(2), vec![0, 1, 2, 3, 4, u64::MAX]]
+    vec![range(4), range(4), range(4), range(8), range(2), vec![0, 1, 2, 3, 4, u64::MAX]]
 }
 fn row(k: usize, w: u64) -> Vec<u8> {
     (0..w as usize).map(|c| (10 * (k + 1) + c) as u8).collect()
@@ -264,7 +264,7 @@ fn cols_body<O: flatcontainer::impls::index::IndexContainer<usize>>(v: &[u64]) {
     let mut idx = Vec::new();
     for (k, x) in rows.iter().enumerate() {
         crate::section("VF:columns.row");
-        let i = match (v[3] + k as u64) % 7 {
+        let i = match (v[3] + k as u64) % 8 {
             0 => r.push(x.as_slice()),
             1 => r.push(x.clone()),
             2 => r.push(x),
@@ -281,6 +281,14 @@ fn cols_body<O: flatcontainer::impls::index::IndexContainer<usize>>(v: &[u64]) {
                 2 => r.push(&arr::<2>(x)),
                 _ => r.push(&arr::<3>(x)),
             },
+            7 => {
+                // a wrapped iterator whose size_hint is not exact (ExactSizeIterator by declaration only): the
+                // iterator of a slice region's read item
+                let mut other = <SliceRegion<MirrorRegion<u8>>>::default();
+                let _ = other.push([9u8].as_slice());
+                let j = other.push(x.as_slice());
+                r.push(PushIter(other.index(j).iter()))
+            }
             _ => {
                 // a read item of another region of the same type
                 let mut other = <ColumnsRegion<MirrorRegion<u8>, O>>::default();
@@ -612,7 +620,7 @@ pub fn harnesses() -> Vec<H> {
         H { name: "fanout_roundtrip", props: &["C01", "C02", "C20", "C14"], nargs: 8, pre: pre_fan, doms: doms_fan, run: run_fan, panic_ok: false,
             bound: "OptionRegion<StringRegion>, ResultRegion<StringRegion, MirrorRegion<u8>>, TupleABRegion<StringRegion, MirrorRegion<u64>>: two pushes, each variant, owned and reference forms, twin fed owned forms", kani: false },
         H { name: "columns_ragged", props: &["C12", "C01", "C02", "C13", "C20"], nargs: 6, pre: pre_cols, doms: doms_cols, run: run_cols, panic_ok: true,
-            bound: "ColumnsRegion<MirrorRegion<u8>> with IndexOptimized and Vec<usize> offsets: three rows of width 0..3 in any order, seven input forms (slice, Vec, &Vec, PushIter, read item of another region, [T;N], &[T;N]) rotated over the rows, all rows re-read after every push, out-of-bounds probe at any position", kani: false },
+            bound: "ColumnsRegion<MirrorRegion<u8>> with IndexOptimized and Vec<usize> offsets: three rows of width 0..3 in any order, eight input forms (slice, Vec, &Vec, PushIter over an exact and over an inexact-size_hint iterator, read item of another region, [T;N], &[T;N]), compared with a twin fed slices, rotated over the rows, all rows re-read after every push, out-of-bounds probe at any position", kani: false },
         H { name: "collapse_boundaries", props: &["C11", "C08", "C09", "C10"], nargs: 5, pre: pre_collapse, doms: doms_collapse, run: run_collapse, panic_ok: false,
             bound: "CollapseSequence at the top, over ConsecutiveIndexPairs, inside a tuple and inside a slice region: three strings over a 3-value domain; boundaries none / clear / merge_regions / clone / clone_from into a pre-filled destination", kani: false },
     ]
